@@ -582,6 +582,13 @@ fn unhide(ctx: &mut Ctx) {
             let mut e = Engine::from_filter_set(fs, true);
             e.use_resources(vec![js("fnarg.js", "function fnarg() { /*FN*/ }", &[], 0, &["fnarg".to_string()], "application/javascript").to_resource()]);
             let inv = invocations(&e.url_cosmetic_resources("https://sub.u.example/").injected_script);
+            // the same engine after a serialization round trip must inject the same set
+            let inv_reloaded = {
+                let mut e2 = Engine::new(true);
+                e2.deserialize(&e.serialize_raw().expect("serialize")).expect("deserialize");
+                e2.use_resources(vec![js("fnarg.js", "function fnarg() { /*FN*/ }", &[], 0, &["fnarg".to_string()], "application/javascript").to_resource()]);
+                invocations(&e2.url_cosmetic_resources("https://sub.u.example/").injected_script)
+            };
             // expected: identical text removes; different spelling of the same call does not
             let mut want: BTreeSet<String> = BTreeSet::new();
             if !blanket {
@@ -591,12 +598,15 @@ fn unhide(ctx: &mut Ctx) {
                     want.insert(format!("fnarg({})", args.join(", ")));
                 }
             }
-            (lines, inv, want, !removed.is_empty() || blanket)
+            (lines, inv, want, !removed.is_empty() || blanket, inv_reloaded)
         });
         match out {
             Err(sig) => ctx.violation(sub, idx, &format!("C18:{}", sig), json!({})),
-            Ok((lines, inv, want, nt)) => {
+            Ok((lines, inv, want, nt, inv_reloaded)) => {
                 ctx.eval();
+                if inv_reloaded != inv {
+                    ctx.violation(sub, idx, "C18:unhide:injections-differ-after-serialization-round-trip", json!({"rules": lines, "invocations": inv, "after_reload": inv_reloaded}));
+                }
                 if nt {
                     ctx.nontrivial(fnv(&format!("{:?}", lines)));
                 }
